@@ -64,7 +64,10 @@ Proof.
   - destruct (get_tx s i); [|discriminate]. destruct (same_set _ ids); [|discriminate].
     exists [LCleanReg i]. cbn [exec]. rewrite H. reflexivity.
   - exists [LRollback i]. cbn [exec]. rewrite H. reflexivity.
-  - destruct (_ && _); [|discriminate]. exists (writes i (length written)). exact H.
+  - destruct (get_tx s i) as [t|]; [|discriminate].
+    match type of H with match step hy s (LPermute i ?x) with _ => _ end = _ => set (pd := x) in * end.
+    destruct (step hy s (LPermute i pd)) as [s1|] eqn:E; [|discriminate].
+    destruct (_ && _); [|discriminate]. exists (LPermute i pd :: writes i (length written)). cbn [exec]. rewrite E. exact H.
   - destruct (exec hy s (writes i torn)) as [s1|] eqn:E; [|discriminate].
     exists (writes i torn ++ [LCrash i]). rewrite exec_app, E. cbn [exec]. rewrite H. reflexivity.
   - exists [l]. cbn [exec]. destruct l; try discriminate; rewrite H; reflexivity.
